@@ -297,6 +297,7 @@ def check(run: Run, prog: Program, model: Model, tier: str) -> None:
     run.floor("DRAW-ORDER", 8)
     run.floor("KIND-AGREE", 20)
     _round_dir(run, prog, model)
+    _len_account(run, prog, model, tier)
 
 
 LEN_OK = ("len", "min_len", "max_len")
@@ -351,6 +352,124 @@ def length_exempt(prog: Program, model: Model, prop: str, has_ell: bool, tier: s
             res = (True, f"declaration only accepts (#concrete ? {prop}) in {sorted(accept)}, where the validator's failing relation {sorted(rv)} cannot hold")
     _EXEMPT_CACHE[ck] = res
     return res
+
+
+def symlen(v: V) -> Optional[Dict[str, int]]:
+    """Length of a generated string as a linear form {term key: coefficient, "1": constant}; None if unknown."""
+    def add(a: Dict[str, int], b: Dict[str, int], k: int = 1) -> Dict[str, int]:
+        out = dict(a)
+        for kk, c in b.items():
+            out[kk] = out.get(kk, 0) + k * c
+        return {kk: c for kk, c in out.items() if c != 0}
+
+    def value_of(x: V) -> Optional[Dict[str, int]]:
+        """integer value of an int-valued term as a linear form"""
+        if isinstance(x, Const) and isinstance(x.value, int):
+            return {"1": x.value} if x.value else {}
+        if isinstance(x, Term) and x.op == "bin" and x.args[0] in ("+", "-"):
+            a, b = value_of(x.args[1]), value_of(x.args[2])
+            if a is None or b is None:
+                return None
+            return add(a, b, 1 if x.args[0] == "+" else -1)
+        if isinstance(x, Term) and x.op == "len":
+            return symlen(x.args[0])
+        return {x.key(): 1}
+
+    if isinstance(v, Const) and isinstance(v.value, str):
+        return {"1": len(v.value)} if v.value else {}
+    if isinstance(v, Sym) and v.kind == "str":
+        return {f"len({v.key()})": 1}
+    if isinstance(v, Term) and v.op == "join":
+        sep, src = v.args
+        if isinstance(sep, Const) and sep.value == "" and isinstance(src, Term) and src.op in ("gencomp", "listcomp") and len(src.args) == 2:
+            elt, it = src.args
+            unit = 1 if (isinstance(elt, Term) and elt.op == "call" and elt.args and elt.args[0] == "random.choice") else None
+            rng = it.args[0] if isinstance(it, Term) and it.op == "src" else None
+            if unit == 1 and isinstance(rng, Term) and rng.op == "range" and len(rng.args) == 1:
+                return value_of(rng.args[0])
+        return None
+    if isinstance(v, StrV):
+        total: Dict[str, int] = {}
+        slices: List[Term] = []
+        for piece in v.pieces:
+            if isinstance(piece, str):
+                total = add(total, {"1": len(piece)})
+                continue
+            x, conv = piece
+            if conv:
+                return None
+            if isinstance(x, Term) and x.op == "slice":
+                slices.append(x)
+                continue
+            l = symlen(x)
+            if l is None:
+                return None
+            total = add(total, l)
+        # x[0:o] + ... + x[o:]  ==  len(x)
+        while slices:
+            a = slices.pop(0)
+            mate = None
+            gap = 0
+            for b in slices:
+                if b.args[0].key() == a.args[0].key():
+                    lo_a, hi_a, lo_b, hi_b = a.args[1], a.args[2], b.args[1], b.args[2]
+                    starts0 = isinstance(lo_a, Const) and lo_a.value in (0, None)
+                    ends_open = isinstance(hi_b, Const) and hi_b.value is None
+                    from ..vtable import _split_offset
+                    (ka, ca), (kb, cb) = _split_offset(hi_a), _split_offset(lo_b)
+                    if starts0 and ends_open and ka == kb and ca is not None and cb is not None:
+                        mate = b
+                        gap = cb - ca          # x[0:o+ca] + x[o+cb:] drops cb-ca characters (duplicates if negative)
+                        break
+            if mate is None:
+                return None
+            slices.remove(mate)
+            l = symlen(a.args[0])
+            if l is None:
+                return None
+            total = add(total, l)
+            if gap:
+                total = add(total, {"1": -gap})
+        return total
+    return None
+
+
+def _len_account(run: Run, prog: Program, model: Model, tier: str) -> None:
+    """LEN-ACCOUNT: on every non-value, non-pattern path of Generator.visit_str the length of the returned string
+    equals the declared / drawn length, whose bounds DRAW-ORDER and MIRROR tie to len / min_len / max_len."""
+    st = model.by_hook["visit_str"]
+    f = model.visitors["Generator"].lookup("visit_str")
+    for cfg in configs_for(st, tier):
+        if "value" in cfg.setprops or "pattern" in cfg.setprops:
+            continue
+        paths = run_visit(prog, model, "Generator", "visit_str", cfg, None, unroll=1, max_depth=8)
+        construct = f"Generator.visit_str {cfg.label}: length"
+        probs: List[str] = []
+        ok = 0
+        for p in paths:
+            if p.outcome != "return" or p.value is None:
+                continue
+            l = symlen(p.value)
+            if l is None:
+                probs.append(f"length of {p.value.key()[:60]} cannot be accounted for")
+                continue
+            if "len" in cfg.setprops:
+                want = {"props.len": 1}
+            else:
+                draws = [k for k in l if k.startswith("call(random.randint")]
+                want = {draws[0]: 1} if len(draws) == 1 else None
+            if want is None or l != want:
+                probs.append(f"returned string has length {l}, expected exactly the declared/drawn length")
+            else:
+                ok += 1
+        if probs and not ok and all("cannot be accounted" in x for x in probs):
+            run.undecided("LEN-ACCOUNT", construct, f.loc, probs[0])
+        elif probs:
+            run.violated("LEN-ACCOUNT", construct, f.loc, "; ".join(sorted(set(probs)))[:300],
+                         witness=f"fake(schema.str with {cfg.label}) has a different length than the one drawn inside [min_len, max_len] / declared by len")
+        elif ok:
+            run.holds("LEN-ACCOUNT", construct, f.loc, f"length == declared/drawn length on {ok} paths", nontrivial=True)
+    run.floor("LEN-ACCOUNT", 10)
 
 
 def _judge_draw(prog: Program, hook: str, label: str, e: Event, lo: V, hi: V, facts: List[Tuple[str, V, bool]],
@@ -443,4 +562,13 @@ MUTANTS = [
                 "        lo = schema.props.min if (schema.props.min is not Nil) else INT_MIN\n        hi = schema.props.max if (schema.props.max is not Nil) else INT_MAX\n        if schema.props.max is Nil:\n            hi = max(hi, lo)\n        if schema.props.min is Nil:\n            lo = min(lo, hi)\n        return self._random.random_int(lo, hi)")]},
     {"name": "neutral: -(-x // 1) style ceil", "expect": "SILENT",
      "edits": [(R, "        left_number = ceil(start * scale_factor)", "        left_number = ceil(start * scale_factor) + 0")]},
+]
+
+MUTANTS += [
+    {"name": "substring inserted without shortening the random part", "rule": "LEN-ACCOUNT",
+     "edits": [(G, "            generated = self._random.random_str(length - len(substr), alphabet)", "            generated = self._random.random_str(length, alphabet)")]},
+    {"name": "substring replaces a slice of fixed width 1", "rule": "LEN-ACCOUNT",
+     "edits": [(G, "            return generated[0:offset] + substr + generated[offset:]", "            return generated[0:offset] + substr + generated[offset + 1:]")]},
+    {"name": "neutral: slices written as [:offset]", "expect": "SILENT",
+     "edits": [(G, "            return generated[0:offset] + substr + generated[offset:]", "            return generated[:offset] + substr + generated[offset:]")]},
 ]
